@@ -1075,6 +1075,8 @@ impl Prop for C12 {
             if has_quirk(&abi, &args, &mut fl) { continue; }
             out.push(Case::search(call_case("anmfile", Lang::Anm, &[abi], &[(0, args)], &[])).tag("through-anm-th12-file"));
         }
+        // (h) intrinsic placement: from_abi / into_vec / raise_intrinsic_parts for every intrinsic kind
+        super::c12_parts::gen_parts(tier, rng, &mut out);
         out
     }
 
@@ -1096,6 +1098,8 @@ impl Prop for C12 {
             },
             Some("sig") => eval_sig(Lang::from_name(a[0].as_atom()), &abi_text(&abi_from_sexp(&a[1]))),
             Some("sigtext") => eval_sig(Lang::Anm, a[0].as_atom()),
+            Some("parts") => super::c12_parts::eval_parts(case),
+            Some("cstr") => super::c12_parts::eval_cstr(case),
             _ => Sexp::atom("bad-case"),
         }
     }
@@ -1104,6 +1108,8 @@ impl Prop for C12 {
         if let Some(f) = default_judge(result) { return Some(f); }
         match case.head() {
             Some("call") | Some("mutate") | Some("anmfile") => judge_call(case, result),
+            Some("parts") => super::c12_parts::judge_parts(case, result),
+            Some("cstr") => super::c12_parts::judge_cstr(case, result),
             _ => None,
         }
     }
